@@ -19,21 +19,21 @@ SINGLE = {
                 "non-trivial = an open replayed >=1 message while another mailbox or app also held messages; "
                 "distinct = distinct executed step lists",
         "nontrivial": lambda r: _p(r, "replay_with_other_messages_present") >= 1,
-        "runs": (1600, 40000),
+        "runs": (5000, 150000),
     },
     "C02": {
         "profile": "C02",
         "rule": "seeded histories (C02 profile: several connections per side, sweeps/restarts between bind and open); "
                 "non-trivial = an add with >=2 subscribed connections",
         "nontrivial": lambda r: _p(r, "add_with_2plus_subscribers") >= 1,
-        "runs": (1600, 40000),
+        "runs": (5000, 150000),
     },
     "C03": {
         "profile": "C03",
         "rule": "seeded histories (C03 profile: same names in several apps, release/re-claim, restarts); "
                 "non-trivial = a repeated claim within one nameplate incarnation",
         "nontrivial": lambda r: _p(r, "repeat_claim_same_incarnation") >= 1,
-        "runs": (1600, 40000),
+        "runs": (5000, 150000),
     },
     "C04": {
         "profile": "C04",
@@ -41,14 +41,14 @@ SINGLE = {
                 "adversarial RNG); non-trivial = an allocation with names in use at the answer's length, or in the "
                 "4-6 digit regime, or with listing disallowed",
         "nontrivial": lambda r: _p(r, "alloc_with_holes") + _p(r, "alloc_4to6") + _p(r, "alloc_listing_disallowed") >= 1,
-        "runs": (1200, 25000),
+        "runs": (1500, 40000),
     },
     "C05": {
         "profile": "C05",
         "rule": "seeded histories (C05 profile: 3-4 sides per nameplate/mailbox, retries, reconnects); "
                 "non-trivial = at least one third-side attempt (expected refusal) occurred",
         "nontrivial": lambda r: _p(r, "crowded_refusals") >= 1,
-        "runs": (1600, 40000),
+        "runs": (5000, 150000),
     },
     "C07": {
         "profile": "C07",
@@ -57,7 +57,7 @@ SINGLE = {
                 "the closer held another nameplate",
         "nontrivial": lambda r: _p(r, "release_retires_nameplate") + _p(r, "reclaimed")
         + _p(r, "last_close_closer_holds_other_nameplate") >= 1,
-        "runs": (1600, 40000),
+        "runs": (5000, 150000),
     },
     "C08": {
         "profile": "C08",
@@ -67,7 +67,7 @@ SINGLE = {
         "nontrivial": lambda r: _p(r, "close_deletes_mailbox") >= 1 and (
             _p(r, "last_close_nameplate_still_claimed") + _p(r, "last_close_closer_holds_other_nameplate")
             + _p(r, "close_resent_or_unopened") >= 1),
-        "runs": (1600, 40000),
+        "runs": (5000, 150000),
     },
     "C09": {
         "profile": "C09", "level": "fault_enumeration",
@@ -76,7 +76,7 @@ SINGLE = {
                 "independent reader's; non-trivial = the run emitted >=3 frames of type "
                 "allocated/claimed/released/closed/message",
         "nontrivial": lambda r: r.c09.get("data_frames", 0) >= 3,
-        "runs": (1600, 40000),
+        "runs": (5000, 150000),
     },
     "C12": {
         "profile": "C12",
@@ -84,7 +84,7 @@ SINGLE = {
                 "non-trivial = a sweep deleted one mailbox while keeping another that holds messages, or kept a "
                 "mailbox only because of a subscriber older than 660 s",
         "nontrivial": lambda r: _p(r, "sweep_delete_one_keep_other") + _p(r, "sweep_old_subscriber_kept") >= 1,
-        "runs": (1200, 30000),
+        "runs": (4000, 120000),
     },
     "C13": {
         "profile": "C13",
@@ -92,27 +92,27 @@ SINGLE = {
                 "errors are injected at the first access of some sweeps; non-trivial = some sweep deleted a mailbox "
                 "and the quiet phase ran",
         "nontrivial": lambda r: _p(r, "sweep_deleted_mailbox") >= 1 and r.quiesce,
-        "runs": (1200, 30000),
+        "runs": (4000, 120000),
     },
     "C15": {
         "profile": "C15",
         "rule": "seeded crash-free histories with a usage database; non-trivial = >=3 retirements in the run",
         "nontrivial": lambda r: _p(r, "retirements") >= 3,
-        "runs": (1600, 40000),
+        "runs": (5000, 150000),
     },
     "C16": {
         "profile": "C16",
         "rule": "seeded histories with blur in {1,7,60,61,100,900,3600,86400} and fractional wall offsets; "
                 "non-trivial = >=2 blurred usage rows were written and checked",
         "nontrivial": lambda r: _p(r, "blur_rows") >= 2,
-        "runs": (1600, 40000),
+        "runs": (5000, 150000),
     },
     "C17": {
         "profile": "C17",
         "rule": "seeded histories mixing well-formed and erroneous commands in every protocol state; "
                 "non-trivial = >=1 erroneous command was checked (one error echoing it, state unchanged)",
         "nontrivial": lambda r: _p(r, "errors_checked") >= 1,
-        "runs": (1600, 40000),
+        "runs": (5000, 150000),
     },
 }
 
